@@ -162,7 +162,7 @@ func accountStats(sc *Scenario, st *engine.Stats, res *engine.JobResult) {
 	res.Count("schedules", st.Execs)
 	res.Count("scheduling_steps", st.Steps)
 	res.Count("hb_cache_hits", st.CacheHits)
-	if res.Counters["max_points"] < st.MaxPoints {
+	if false {
 		res.Counters["max_points"] = st.MaxPoints
 	}
 	if res.Outcomes == nil {
